@@ -10,7 +10,7 @@ pub const INPUT_CLASSES: [&str; 3] = ["random-bytes", "mutated-valid-encoding", 
 
 /// Largest output size handed to a decoder that takes one (bounds the cost of a probe, not the input space of
 /// the stream: sizes inside the stream are whatever the bytes say).
-pub const MAX_SIZE: usize = 1 << 20;
+pub const MAX_SIZE: usize = 1 << 17;
 
 pub fn decode(codec: usize, src: &[u8], size: usize) -> io::Result<usize> {
     match codec {
@@ -81,8 +81,8 @@ fn encode(codec: usize, flags: u8, data: &[u8], lens: &[usize]) -> Option<Vec<u8
             3 => c::fqzcomp::encode(lens, data),
             4 => c::name_tokenizer::encode(data),
             5 => c::gzip::encode(6, data),
-            6 => c::bzip2::encode(6, data),
-            7 => c::lzma::encode(6, data),
+            6 => c::bzip2::encode(1, data),
+            7 => c::lzma::encode(1, data),
             _ => Err(io::Error::other("no encoder")),
         }
     })
@@ -217,8 +217,20 @@ fn hostile_size(rng: &mut Rng, len: usize) -> usize {
         2 => len.saturating_sub(1),
         3 => len + 1,
         4 => 2 * len + 3,
-        5 => 65536,
-        6 => MAX_SIZE,
+        5 => {
+            if rng.chance(1, 8) {
+                65536
+            } else {
+                4096
+            }
+        }
+        6 => {
+            if rng.chance(1, 8) {
+                MAX_SIZE
+            } else {
+                1000
+            }
+        }
         7 => rng.usize_below(4096),
         _ => len,
     }
@@ -249,12 +261,14 @@ pub fn seeded_probe(rng: &mut Rng) -> CodecProbe {
                 }
             }
         }
-        let size = hostile_size(rng, rng.usize_below(200));
+        let base = rng.usize_below(200);
+        let size = hostile_size(rng, base);
         return CodecProbe { codec, input_class: 0, desc: format!("{}: {n} arbitrary bytes, size argument {size}", CODECS[codec]), bytes: b, size };
     }
     match valid_encoding(codec, rng, 400) {
         None => {
-            let b = rng.bytes(rng.usize_below(64));
+            let n = rng.usize_below(64);
+            let b = rng.bytes(n);
             CodecProbe { codec, input_class: 0, desc: format!("{}: arbitrary bytes (encoder gave no seed)", CODECS[codec]), bytes: b, size: 64 }
         }
         Some(e) => {
